@@ -347,6 +347,11 @@ def simplify(t, sym=None):
             # payload of `?`
             if inner[0] == "call" and inner[1] == "branch" and len(inner[2]) == 1:
                 if b[2] == "Continue":
+                    x_ = inner[2][0]
+                    while x_[0] in ("ref", "deref"):
+                        x_ = x_[1]
+                    if x_[0] == "agg" and x_[2] in ("Ok", "Some") and len(x_[3]) == 1 and x_[1].split("::")[-1] in ("Result", "Option"):
+                        return x_[3][0][1]      # `Ok(v)?` on a value built on this path is v
                     return ("unwrap", inner[2][0])
                 if b[2] == "Break":
                     return ("residual", inner[2][0])
@@ -379,6 +384,13 @@ def simplify(t, sym=None):
             return ("const", a[1] & ((1 << bits) - 1), t[2])
         if t[4] == "IntToInt" and t[2] == t[3]:
             return a
+        return t
+    if tag == "unwrap":
+        x_ = t[1]
+        while x_[0] in ("ref", "deref"):
+            x_ = x_[1]
+        if x_[0] == "agg" and x_[2] in ("Ok", "Some") and len(x_[3]) == 1 and x_[1].split("::")[-1] in ("Result", "Option"):
+            return x_[3][0][1]      # `Ok(v)?` on a value built on this path is v
         return t
     if tag == "call":
         name, args = t[1], t[2]
